@@ -128,6 +128,11 @@ theorem unmarshalWSnap_marshal (s : WSnap) (h : WSnapOk s) : unmarshalWSnap (mar
 example : EntryOk ⟨0, 2, 7, some [1, 2, 3]⟩ := ⟨by decide, by decide, by decide, fun d h => by cases h; decide⟩
 example : unmarshalEntry (marshalEntry ⟨1, 2, 7, none⟩) = .ok ⟨1, 2, 7, none⟩ := by decide +kernel
 
+example : HSOk ⟨3, 1, 17⟩ ∧ unmarshalHS (marshalHS ⟨3, 1, 17⟩) = .ok ⟨3, 1, 17⟩ :=
+  ⟨⟨by decide, by decide, by decide⟩, unmarshalHS_marshal _ ⟨by decide, by decide, by decide⟩⟩
+example : WSnapOk ⟨9, 2, some [1]⟩ ∧ unmarshalWSnap (marshalWSnap ⟨9, 2, some [1]⟩) = .ok ⟨9, 2, some [1]⟩ :=
+  ⟨⟨by decide, by decide, fun d h => by cases h; decide⟩, unmarshalWSnap_marshal _ ⟨by decide, by decide, fun d h => by cases h; decide⟩⟩
+
 #print axioms unmarshalEntry_marshal
 #print axioms unmarshalHS_marshal
 #print axioms unmarshalWSnap_marshal
